@@ -101,7 +101,7 @@ func (g *Group) renderItems(f *File, w io.Writer) (isNull bool, err error) {
 		}
 		if g.name == "values" {
 			if _, ok := code.(Dict); ok && len(g.items) > 1 {
-				panic("Error in Values: if Dict is used, must be one item only")
+				return false, fmt.Errorf("Error in Values: if Dict is used, must be one item only")
 			}
 		}
 		if !first && g.separator != "" {
